@@ -177,7 +177,11 @@ GLYPH_OPS = ["comp", "d2x2:0", "d2x2:1", "d2x2:S", "nest", "mixed", "dflip"]
 # "comps+nd": the "comps" layer additionally has its own '.notdef' glyph
 SPARSE_OPS = ["sparse:bases", "sparse:comps", "sparse:mix", "sparse:comps1st", "sparse:comps+nd"]
 SKIP_OPS = ["skip:base", "skip:comp"]
-FILTER_OPS = ["filt:dtc:0", "filt:dtc:1", "filt:dtc:all", "filt:flat:0"]
+FILTER_OPS = ["filt:dtc:0", "filt:dtc:1", "filt:dtc:all", "filt:flat:0", "filt:flat:all"]
+# depth-3 histories that are part of the quick tier as start states: a pre-filter that rewires
+# components (flatten) over nested composites whose INNER 2x2 differs between masters
+DEEP_SEEDS = [["d2x2:0", "nest", "filt:flat:all"], ["d2x2:1", "nest", "filt:flat:all"],
+              ["comp", "nest", "filt:flat:all"], ["d2x2:1", "nest", "filt:dtc:all"]]
 ALL_OPS = GLYPH_OPS + SPARSE_OPS + SKIP_OPS + FILTER_OPS
 
 
@@ -580,6 +584,10 @@ class C09(Property):
                     if b["defcon_depth"] >= 0:
                         out.append([{"entry": e, "n": n, "module": "defcon", "flatten": fl}])
         import itertools
+        for e in b["entries"]:
+            for n in b["masters"]:
+                for seed in DEEP_SEEDS:
+                    out.append([{"entry": e, "n": n, "module": "ufoLib2", "flatten": False}] + list(seed))
         for n in range(1, b["pipeline_len"] + 1):
             for seq in itertools.product(sorted(PIPE_FILTERS), repeat=n):
                 out.append([{"part": "pipeline", "seq": list(seq)}])
